@@ -25,15 +25,11 @@ struct osm_state osm;
 #define PIPEFDS  (BIT(2 * OSM_MAXCHILD) - 1u)
 #define WRITE_ENDS (0xaaaaaaaau & PIPEFDS)
 
-int
-osm_pop32(unsigned m)
-{
-	m = (m & 0x55555555u) + (m >> 1 & 0x55555555u);
-	m = (m & 0x33333333u) + (m >> 2 & 0x33333333u);
-	m = (m & 0x0f0f0f0fu) + (m >> 4 & 0x0f0f0f0fu);
-	m = (m & 0x00ff00ffu) + (m >> 8 & 0x00ff00ffu);
-	return (int)((m & 0xffffu) + (m >> 16));
-}
+/* population counts as expressions: the functions below are called from contract clauses, where DFCC does not
+   instrument nested calls consistently */
+#define B(m, i) ((m) >> (i) & 1u)
+#define POP8(m)  ((int)(B(m,0) + B(m,1) + B(m,2) + B(m,3) + B(m,4) + B(m,5) + B(m,6) + B(m,7)))
+#define POP32(m) (POP8(m) + POP8((m) >> 8) + POP8((m) >> 16) + POP8((m) >> 24))
 
 void
 osm_reset(void)
@@ -72,31 +68,37 @@ osm_livemask(void)
 int
 osm_nlive(void)
 {
-	return osm_pop32(osm_livemask());
+	unsigned m = osm.spawned & ~osm.reaped;
+
+	return POP8(m);
 }
 
 int
 osm_nchild(void)
 {
-	return osm_pop32(osm.spawned);
+	return POP8(osm.spawned);
 }
 
 int
 osm_term_missing(void)
 {
-	return osm_pop32(osm.term_due & ~osm.termed);
+	unsigned m = osm.term_due & ~osm.termed;
+
+	return POP8(m);
 }
 
 int
 osm_write_ends_open(void)
 {
-	return osm_pop32(osm.fd_open & WRITE_ENDS);
+	unsigned m = osm.fd_open & WRITE_ENDS;
+
+	return POP32(m);
 }
 
 int
 osm_nopen(void)
 {
-	return osm_pop32(osm.fd_open);
+	return POP32(osm.fd_open);
 }
 
 int
@@ -114,7 +116,7 @@ osm_was_unlinked(const char *path)
 int
 osm_tmp_left(void)
 {
-	return osm.ntmp - osm_pop32(osm.tmp_unlinked);
+	return osm.ntmp - POP8(osm.tmp_unlinked);
 }
 
 /* the driver learns of a failure: the stages still running from now on have to be terminated */
@@ -197,7 +199,8 @@ int
 osm_posix_spawnp(pid_t *pid, const char *file, const posix_spawn_file_actions_t *fa, const posix_spawnattr_t *attr,
                  char *const argv[], char *const envp[])
 {
-	int a, n, b, inp = -1, outp = -1;
+	int a, n, b, inp = -1, outp = -1, leaked;
+	unsigned inherit;
 
 	(void)attr; (void)envp;
 	__CPROVER_assert(file != 0 && argv != 0, "posix_spawnp: file and argv are non-null");
@@ -224,8 +227,10 @@ osm_posix_spawnp(pid_t *pid, const char *file, const posix_spawn_file_actions_t 
 			outp = b / 2;
 	}
 	/* descriptors that are open and not close-on-exec are inherited under their own number */
+	inherit = osm.fd_open & ~osm.fd_cloexec;
+	leaked = POP32(inherit);
 	newchild(a, pid, (char **)argv, n, file, fa ? osm.fa_in : -1, fa ? osm.fa_out : -1, inp, outp,
-	         osm_pop32(osm.fd_open & ~osm.fd_cloexec));
+	         leaked);
 	if (pid)
 		*pid = osm_tape.pidbase + a;
 	return 0;
